@@ -112,7 +112,11 @@ def discover_structural(key, data, ops, skip_ranges=()):
         cx.decide = decide
         cx.concretize = concretize
         cx._check()
-        result = ops(SymBytes(items=items))
+        try:
+            result = ops(SymBytes(items=items))
+        except Exception:
+            # the operation itself fails on the fixture values: the real run reports it
+            result = None
         # "live" bytes: those that flow into a field of the parsed tree.  Bytes that are neither
         # structural nor live are skipped/reserved by the parser; well-formed input has the
         # specified value there, so they stay concrete as well.
